@@ -4,7 +4,7 @@ MODEL = ["@model/gmp_model.c", "@model/io_model.c", "@model/globals_mpq.c"]
 B = "2 structural columns + 1 existing row, structurals-first or logical-first, arbitrary sparse layout with holes, new row with at most 2 entries (1 in the *1 variants); %s; realloc branch of the matrix cut; reader buffer capacity 512 (name buffer); loops completely unwound; allocation failure not explored"
 ASM = "addrow/*: ILLlib_findName, ILLsymboltab_register and ILLutil_str are stubs (the new name may collide)"
 GROUPS = [
-    Group("addrow/room1", "lib_addrow.c", tus=LIB, model=MODEL, defines=["CNT1"], dfcc=False, unwind=18, kind="bounded", bound=B % "row/column arrays have room for one more", timeout=1800, namebuf=512,
+    Group("addrow/room1", "lib_addrow.c", tus=LIB, model=MODEL, mem_gb=8, defines=["CNT1"], dfcc=False, unwind=18, kind="bounded", bound=B % "row/column arrays have room for one more", timeout=1800, namebuf=512,
           flags=["--no-malloc-may-fail"], slice=True, cut=["matrix_addrow_end"], must_fail=["reach_end", "reach_added"], functions=["ILLlib_addrow", "matrix_addrow", "matrix_addcol"], props=["C06", "C07", "C17"], assumed=[ASM]),
     # addrow/full (row/column arrays full: every array grows by 100) ran out of memory after 2576 s on the final tree and is not registered
 ]
